@@ -33,6 +33,7 @@ type Frame struct {
 	results Value
 	final   bool // results set; frame returns after remaining defers
 	id      int64
+	loop    map[*ssa.BasicBlock]int // back-edge counts of this activation (unwinding check)
 	barrier bool // summarisation boundary: returning from this frame ends the sub-exploration
 }
 
@@ -43,6 +44,12 @@ func (f *Frame) clone() *Frame {
 		n.regs[k] = v
 	}
 	n.defers = append([]deferred(nil), f.defers...)
+	if f.loop != nil {
+		n.loop = make(map[*ssa.BasicBlock]int, len(f.loop))
+		for k, v := range f.loop {
+			n.loop[k] = v
+		}
+	}
 	return &n
 }
 
